@@ -214,8 +214,8 @@ def pasted_operands(ctx: Ctx, common, cases, built: bool) -> None:
             rows.append((node, op, text, src))
             ctx.case(("paste", src, op), nontrivial=len(src) > 2, sample={"source": src, "operator": op, "pasted": text} if rng.random() < 0.004 else None)
             ctx.count(f"pasted-next-to:{op}")
-            if text == "x" or (op == "{}" and text.lstrip("(").startswith("{")) or "'" in text and op == "{}":
-                continue            # placeholder; a brace directly after the field's brace is an escape (its own matter)
+            if text == "x" or "'" in text and op == "{}":
+                continue            # placeholder; the field's text is quoted with single quotes by the oracle
             tpl = PASTE_CONTEXTS[op]
             want, got = norm(tpl.format(f"({src})")), norm(tpl.format(text))
             plain = common.stringify(node)
